@@ -140,5 +140,7 @@ pub fn exec(rec: &Value, _st: &mut State) -> Value {
             "tmax": {"r": q.q(tmax.radius(), qc), "c": [q.q(tc.x, qc), q.q(tc.y, qc)], "thk": qt.q(thk, qc), "thk_ok": qt.finite},
             "finite": q.finite}));
     }
-    json!({"v": vars})
+    let mut qq = Q::new();
+    let lt = gvi(rec, "le_true"); let tt = gvi(rec, "te_true");
+    json!({"v": vars, "le_true": [qq.q(lt[0] as f64 / unit, qc), qq.q(lt[1] as f64 / unit, qc)], "te_true": [qq.q(tt[0] as f64 / unit, qc), qq.q(tt[1] as f64 / unit, qc)]})
 }
